@@ -359,6 +359,12 @@ def mk_idx(base: Term, i: Term) -> Term:
     if base[0] in ("tuple", "list") and i[0] == "c" and isinstance(i[1], int) and -len(base[1]) <= i[1] < len(base[1]) \
             and not any(x[0] == "star" for x in base[1]):
         return base[1][i[1]]
+    if base[0] == "slice" and base[3] == NONE and base[4] == NONE and is_num_const(i) and isinstance(i[1], int) and i[1] >= 0:
+        lo = base[2]
+        if lo == NONE:
+            return mk_idx(base[1], i)                      # xs[:][k] == xs[k]
+        if is_num_const(lo) and isinstance(lo[1], int) and lo[1] >= 0:
+            return mk_idx(base[1], C(lo[1] + i[1]))        # xs[a:][k] == xs[a + k]
     return ("idx", base, i)
 
 
